@@ -215,11 +215,23 @@ pub fn run(ctx: &Ctx) -> i32 {
     let mut n_free = 0u64;
     for lat in [0.0f32, 28.0, 40.7, 43.4, -35.0] {
         for nday in [15u32, 80, 172, 266, 355] {
-            for hh in 10..=38 {
+            for hh in 0..=47 {
                 let hour = hh as f32 * 0.5;
                 let decl = solar::declination_from_nday(nday);
                 let alt_model = solar::altitude_sol_from_data(decl, solar::hourangle_from_tsol(hour), lat);
                 if alt_model < 6.0 {
+                    // twilight and night: no direct radiation, but the sky may still give some diffuse radiation. What a
+                    // downward-facing surface gains when the ground reflects (albedo 0.5 against albedo 0) is half of it,
+                    // wherever the sun is (the difference leaves out what the sky model itself does under a sun below the horizon)
+                    for dif in [0.0f32, 5.0, 40.0] {
+                        n_free += 1;
+                        let r0 = climate::radiation_for_surface(nday, hour, SolarRadiation { dir: 0.0, dif }, lat, 180.0, 0.0, 0.0);
+                        let r5 = climate::radiation_for_surface(nday, hour, SolarRadiation { dir: 0.0, dif }, lat, 180.0, 0.0, 0.5);
+                        let gain = (r5.dir + r5.dif) as f64 - (r0.dir + r0.dif) as f64;
+                        if (gain - 0.5 * dif as f64).abs() > 0.001 * dif as f64 + 0.05 {
+                            ctx.violation("radiation:downward-not-albedo:low-sun", &format!("with ground albedo 0.5 instead of 0 a downward surface gains {:.3} W/m2, half the global horizontal radiation is {:.3} (sun altitude {:.2})", gain, 0.5 * dif, alt_model), json!({"part": "radiation-free-inputs", "latitude": lat, "nday": nday, "hour": hour, "dir_hor": 0, "dif_hor": dif, "altitude": alt_model}));
+                        }
+                    }
                     continue;
                 }
                 for dir in [0.0f32, 20.0, 150.0, 250.0, 500.0, 900.0] {
@@ -349,7 +361,7 @@ pub fn run(ctx: &Ctx) -> i32 {
     ctx.outcome_merge(&outcomes);
     ctx.finish(
         "model_checking",
-        &format!("all 365 (month, day) pairs against a calendar table (nday_from_md and nday_from_ymd); sun altitude/azimuth on the full grid latitude [-66,66] x declination [-23.45,23.45] x hour angle (-180,180) with step {} degrees against the spherical-astronomy sun vector (E,N,U) for altitudes in [1,89] (0.05 degrees; azimuth tolerance scaled by 1/cos(alt)); incidence angle for tilt 0..180 x surface azimuth -180..180 (15 degree grid) x 6 latitudes x 5 declinations x 47 hour angles (solar::angle_sol_surf and climate::sunsurface_angles) against the angle between that sun vector and WallGeom::normal (also tied to ray_dir_to_sun; the normal also for a rectangle at five offsets in its plane x four starting corners); all 8760 hours of zonaD3.met: horizontal conservation (altitude >= 6), downward = albedo x global, beam >= 0 on the 9 standard orientations; the same three identities on the free-input grid latitude{{0,28,40.7,43.4,-35}} x day{{15,80,172,266,355}} x half hours 5..19 (model altitude >= 6) x dir{{0,20,150,250,500,900}} x dif{{0,40,150,400}} x albedo{{.2,0,.5}}; 32 zones x 9 classes x 12 months and July-day rows exist, non-negative; zone names round-trip; D3 July rows == weather file rows; D3 monthly rows == monthly sums of the radiation model on the shipped file; row label == class of the azimuth it was computed for", step),
+        &format!("all 365 (month, day) pairs against a calendar table (nday_from_md and nday_from_ymd); sun altitude/azimuth on the full grid latitude [-66,66] x declination [-23.45,23.45] x hour angle (-180,180) with step {} degrees against the spherical-astronomy sun vector (E,N,U) for altitudes in [1,89] (0.05 degrees; azimuth tolerance scaled by 1/cos(alt)); incidence angle for tilt 0..180 x surface azimuth -180..180 (15 degree grid) x 6 latitudes x 5 declinations x 47 hour angles (solar::angle_sol_surf and climate::sunsurface_angles) against the angle between that sun vector and WallGeom::normal (also tied to ray_dir_to_sun; the normal also for a rectangle at five offsets in its plane x four starting corners); all 8760 hours of zonaD3.met: horizontal conservation (altitude >= 6), downward = albedo x global, beam >= 0 on the 9 standard orientations; the same three identities on the free-input grid latitude{{0,28,40.7,43.4,-35}} x day{{15,80,172,266,355}} x every half hour (model altitude >= 6; below that: gain of a downward surface between albedo 0 and 0.5 = half the diffuse input, dif{{0,5,40}}) x dir{{0,20,150,250,500,900}} x dif{{0,40,150,400}} x albedo{{.2,0,.5}}; 32 zones x 9 classes x 12 months and July-day rows exist, non-negative; zone names round-trip; D3 July rows == weather file rows; D3 monthly rows == monthly sums of the radiation model on the shipped file; row label == class of the azimuth it was computed for", step),
         true,
         json!({}),
     )
